@@ -219,6 +219,32 @@ func RunAnyutil(c *core.Ctx) {
 		}
 	}
 	c.Check(sawURL && sawVal, "ANY.url", "anyutil.MarshalFrom stores", "both TypeUrl and Value are stored", "TypeUrl or Value store missing", pos(mf.Pos()), src)
+	// … on every path that reports success: a success return that some path reaches without the TypeUrl store or without
+	// the Value store leaves part of a re-used destination as it was (a new type URL over the previous payload)
+	{
+		nOK := 0
+		var bad []string
+		allInstrs(mf, func(b *ssa.BasicBlock, in ssa.Instruction) {
+			r, ok := in.(*ssa.Return)
+			if !ok || len(r.Results) != 1 || !isNilConst(r.Results[0]) {
+				return
+			}
+			nOK++
+			for _, fld := range []string{"TypeUrl", "Value"} {
+				dom := false
+				for _, s := range stores {
+					if fieldName(s.Addr.(*ssa.FieldAddr)) == fld && (s.Block() == b || s.Block().Dominates(b)) {
+						dom = true
+					}
+				}
+				if !dom {
+					bad = append(bad, "dst."+fld+" is not stored on every path to the success return at "+pos(r.Pos()))
+				}
+			}
+		})
+		c.Check(len(bad) == 0 && nOK > 0, "ANY.value", "anyutil.MarshalFrom success paths", "both fields are stored on every path to a nil-error return",
+			strings.Join(bad, "; "), pos(mf.Pos()), src)
+	}
 
 	// no host prefix constants in the package
 	for _, m := range sp.Members {
@@ -300,19 +326,32 @@ func RunAnyutil(c *core.Ctx) {
 		})
 		okRets := dstAlloc != nil
 		nR := 0
+		pair := func(r0, r1 ssa.Value) {
+			nR++
+			if isNilConst(r1) {
+				if r0 != dstAlloc {
+					okRets = false
+				}
+			} else if !isNilConst(r0) || r1 != mfErr {
+				okRets = false
+			}
+		}
 		allInstrs(nw, func(b *ssa.BasicBlock, in ssa.Instruction) {
 			r, ok := in.(*ssa.Return)
 			if !ok || len(r.Results) != 2 {
 				return
 			}
-			nR++
-			if isNilConst(r.Results[1]) {
-				if r.Results[0] != dstAlloc {
-					okRets = false
+			// one return fed by several paths (the body written through a helper that is inlined, or result variables):
+			// the pairs that arrive together over each edge
+			p0, isP0 := r.Results[0].(*ssa.Phi)
+			p1, isP1 := r.Results[1].(*ssa.Phi)
+			if isP0 && isP1 && p0.Block() == p1.Block() && len(p0.Edges) == len(p1.Edges) {
+				for i := range p0.Edges {
+					pair(p0.Edges[i], p1.Edges[i])
 				}
-			} else if !isNilConst(r.Results[0]) || r.Results[1] != mfErr {
-				okRets = false
+				return
 			}
+			pair(r.Results[0], r.Results[1])
 		})
 		c.Check(okRets && nR == 2, "ANY.value", "anyutil.New results", "returns the freshly allocated Any packed from src, or (nil, the marshal error)",
 			"New does not return (the fresh Any it packed, nil) on success and (nil, err) on failure", pos(nw.Pos()), src)
